@@ -86,7 +86,7 @@ def run(rac):
         L = 3 if quick else 4
         rac.section("manager", f"managers built by every sequence of <= {L} expression definitions (of {len(alpha)}), "
                     "plus side-effect-only observer tasks (no targets) on every location and nested container, "
-                    "then every location assigned once; run trace == downstream closure of the declared graph, each once, "
+                    "then every location assigned once (a plain value; on an expression-defined location it replaces the definition); run trace == downstream closure of the declared graph, each once, "
                     "producers first unless the declared edge closes a cycle; non-trivial = at least one task ran",
                     f"<= {L} definitions x {len(G.LOCS)} assigned locations")
         for n in range(1, L + 1):
@@ -98,8 +98,7 @@ def run(rac):
                 if not all(G.legal(orc, o) and (orc.apply(o) or True) for o in ops):
                     continue
                 for loc in G.LOCS:
-                    if loc in orc.defs:
-                        continue
+                    # (a location that HAS a definition is assigned too: the value replaces the definition, whose task must not run)
                     w = G.World()
                     try:
                         for o in ops:
